@@ -30,6 +30,10 @@ CHECKS = {
          "Parse.tla applies every mutation of a catalogue (and, thorough, every pair) to valid base documents inside the specification, classifies each as must-reject / builds-or-throws / formatting-only, and records for each rejection whether the transcribed pipeline stops it with an always-on or a debug-only check (Mech |= Prop in a release build); every document, plus byte-level damage and formatting variants from a generic re-serialiser, is constructed and probed in the real library under AddressSanitizer and UndefinedBehaviorSanitizer.",
          "about 280 mutations x 2 base documents (+ pairs), about 900 byte-level / formatting documents; arbitrary byte strings that are not mutations of a valid document are not explored; uninitialised reads only as far as UBSan and their effects show them; " + NOTE.replace("-O2 -DNDEBUG", "-O1 -DNDEBUG + ASan/UBSan"),
          "TLA+/TLC (Parse.tla mutation catalogue, pipeline Mech) + replay under ASan/UBSan"),
+ "C13": ("exploration",
+         "Model-directed exploration: Degenerate.tla derives the degenerate locations of a configuration (polygon vertices and edges, trench line and ends, slab tip, fault line, plume axis, ridge points, depth-surface nodes, kinks, poles, the +-180 meridian, the centre, z = -depth frames, odd depths) and TLC enumerates world kind x location; each is queried in the real library under ASan + UBSan and every returned value must be finite unless a std::exception is thrown.",
+         "the decision that an execution had no undefined behaviour is the sanitizers'; the specification directs where to look; locations of one (rich) configuration in three renderings; " + NOTE.replace("-O2 -DNDEBUG", "-O1 -DNDEBUG + ASan/UBSan"),
+         "TLA+ enumeration of degenerate locations (Degenerate.tla) + replay under ASan/UBSan with finiteness oracle"),
  "C14": ("model_checking",
          "TLC explores every interleaving of the transcribed parallel_for (no result slot written twice, at most T workers, termination under fairness, launches equal their sequential meaning), proves the slice partition for all n, T in the bound, and checks concurrent readers; executions of the REAL ThreadPool are recorded and validated by TLC as behaviours of the specification (trace validation, Prop level: any partition is accepted); real threads replay query streams against one world bitwise vs single-thread and under ThreadSanitizer; real gwb-grid outputs are byte-compared for -j 1..40.",
          "interleavings exhaustively only in the model (n <= 6/7, T <= 3/4); real schedules sampled; worlds without random models; " + NOTE,
